@@ -1043,6 +1043,30 @@ def m_opt_is_none_or(dex, fn, body, st, c, args, depth):
             yield s2, TRUE, False
 
 
+def m_opt_map_or(dex, fn, body, st, c, args, depth):
+    for n, s2, payload in variant_fork(dex, st, args[0], *OPT):
+        if n == "Some":
+            yield from dex.call_closure(s2, args[2], [payload], depth)
+        else:
+            yield s2, args[1], False
+
+
+def m_opt_map_or_else(dex, fn, body, st, c, args, depth):
+    for n, s2, payload in variant_fork(dex, st, args[0], *OPT):
+        if n == "Some":
+            yield from dex.call_closure(s2, args[2], [payload], depth)
+        else:
+            yield from dex.call_closure(s2, args[1], [], depth)
+
+
+def m_res_map_or(dex, fn, body, st, c, args, depth):
+    for n, s2, payload in variant_fork(dex, st, args[0], *RES):
+        if n == "Ok":
+            yield from dex.call_closure(s2, args[2], [payload], depth)
+        else:
+            yield s2, args[1], False
+
+
 def m_opt_unwrap_or(dex, fn, body, st, c, args, depth):
     for n, s2, payload in variant_fork(dex, st, args[0], *OPT):
         yield s2, (payload if n == "Some" else args[1]), False
@@ -1259,6 +1283,30 @@ def m_for_each(dex, fn, body, st, c, args, depth):
                     work.append((s2, k + 1))
 
 
+def m_find(dex, fn, body, st, c, args, depth):
+    """iter.find(p) == for x in iter { if p(&x) { return Some(x) } } None"""
+    it, f = _adaptor_iter(args[0]), args[1]
+    work = [(st, 0)]
+    while work:
+        st0, k = work.pop()
+        if k > dex.unroll:
+            yield st0, None, "loop"
+            continue
+        for s1, x, n in _adaptor_next(dex, st0, it, c):
+            if n == "None":
+                yield s1, NONE, False
+                continue
+            for s2, r, div in dex.call_closure(s1, f, [x], depth):
+                if div:
+                    yield s2, r, div
+                    continue
+                for truth, s3 in dex.fork_bool(s2, r):
+                    if truth:
+                        yield s3, some(x), False
+                    else:
+                        work.append((s3, k + 1))
+
+
 def m_unit(dex, fn, body, st, c, args, depth):
     yield st, UNIT, False
 
@@ -1326,6 +1374,10 @@ SUFFIX_MODELS = [
     ("option::Option::<T>::ok_or_else", m_opt_ok_or_else),
     ("iter::traits::iterator::Iterator::try_for_each", m_try_for_each),
     ("iter::traits::iterator::Iterator::for_each", m_for_each),
+    ("iter::traits::iterator::Iterator::find", m_find),
+    ("option::Option::<T>::map_or", m_opt_map_or),
+    ("option::Option::<T>::map_or_else", m_opt_map_or_else),
+    ("result::Result::<T, E>::map_or", m_res_map_or),
     ("option::Option::<T>::or_else", m_opt_or_else),
     ("option::Option::<T>::or", m_opt_or),
     ("option::Option::<T>::and", m_opt_and),
